@@ -154,7 +154,10 @@ def sa_cmds(vec):
     if vec["op"] == "count":
         return [("SA count %s" % blob, "count")]
     caps = ",".join(str(r["len"]) for r in vec["res"]) or "0"
-    return [("SA unpack %d %d %s %s" % (vec["req"], vec["withdest"], blob, caps), "unpack")]
+    return [("SA unpack %d %s %s %s" % (vec["req"], wdstr(vec["withdest"]), blob, caps), "unpack")]
+
+def wdstr(wd):
+    return "".join(str(x) for x in wd) or "-"
 
 def sa_parse(line):
     t = line.split()
@@ -192,7 +195,7 @@ def sa_compare(vec, line, v):
             if gl != "48879": ok = rep("untouched", "unpack of %d strings, requested %d: result object %d beyond the array was written (length %s)" % (vec["count"], vec["req"], i, gl))
             continue
         if gl != str(r["len"]): ok = rep("len", "unpack: string %d length %s, specification %d" % (i, gl, r["len"]))
-        if vec["withdest"] == 1 and i < 8 and gb != hexs(r["bytes"]): ok = rep("bytes", "unpack: string %d bytes %s, specification %s" % (i, gb[:60], hexs(r["bytes"])[:60]))
+        if vec["withdest"][i] == 1 and i < 8 and gb != hexs(r["bytes"]): ok = rep("bytes", "unpack: string %d bytes %s, specification %s" % (i, gb[:60], hexs(r["bytes"])[:60]))
     return ok
 
 def sa_replay(v, ex, vectors, tag=""):
@@ -219,9 +222,10 @@ def sa_drive(rnd, n):
             cmds.append("SA count %s" % hexs(blob)); evs.append({"e": "sa", "op": "count", "blob": blob})
         else:
             req = rnd.choice((0, max(k - 1, 0), k, min(k + 1, 8), min(k + 3, 8)))
-            wd = rnd.randrange(2)
+            m = rnd.choice((0, 1, 2, 2))                   # none / all / a random mixture of destinations
+            wd = [m if m < 2 else rnd.randrange(2) for _ in range(req)]
             caps = [len(s) for s in lst] + [0] * 8
-            cmds.append("SA unpack %d %d %s %s" % (req, wd, hexs(blob), ",".join(str(c) for c in caps[:max(req, 1)])))
+            cmds.append("SA unpack %d %s %s %s" % (req, wdstr(wd), hexs(blob), ",".join(str(c) for c in caps[:max(req, 1)])))
             evs.append({"e": "sa", "op": "unpack", "blob": blob, "req": req, "withdest": wd})
     return cmds, evs
 
@@ -242,11 +246,11 @@ def sa_finish(evs, outs, v):
             res = []
             got = [] if o["res"] == "-" else o["res"].split(",")
             bad = False
-            for g in got:
+            for i, g in enumerate(got):
                 if "!dirty" in g: bad = True
                 gl, _, gb = g.replace("!dirty", "").partition(":")
                 if gl == "48879": res.append({"len": 0, "bytes": [], "touched": 0})
-                else: res.append({"len": int(gl), "bytes": unhexs(gb) if ev["withdest"] else [], "touched": 1})
+                else: res.append({"len": int(gl), "bytes": unhexs(gb) if ev["withdest"][i] else [], "touched": 1})
             if bad:
                 v.violation("strarr op=unpack kind=dirty", "unpack wrote outside a destination", {"event": ev}); continue
             e["res"] = res
